@@ -1714,6 +1714,12 @@ impl HasQoSPolicy for Writer {
 // -------------------------------------------------------------------------------------
 // -------------------------------------------------------------------------------------
 
+// Verification hook: wrappers (kept out of tree) around private Writer steps.
+#[cfg(feature = "rustdds_verif")]
+pub(crate) mod verif_hook {
+  include!(concat!(env!("RUSTDDS_VERIF_DIR"), "/incrate/hooks_writer.rs"));
+}
+
 #[cfg(test)]
 mod tests {
   use std::thread;
